@@ -204,6 +204,9 @@ class _Splits:
         return z3.Const("subkey", Leaf) if not isinstance(i, slice) else z3.Const("subkeys", Leaf)
 
 
+CemUpdate.replay = lambda self, label, clause, probes, model: {"kind": "pure", "which": "cem_update", "probes": probes}
+
+
 UNITS = [CemUpdate(), CemRanking(), GaussianSample(), EvoStep()]
 EXTRA = dict(assumptions=["losses live in R u {NaN}; +inf is a sentinel above every finite loss (tagged encoding of IEEE values)",
                           "EVO: that evosax honours clip_min/clip_max and keeps its best member is the library's contract (assumed); only the rex-side dataflow is proved",
